@@ -16,8 +16,10 @@
 
 static int thorough;
 
-enum { CB_NONE = 0, CB_STRICT, CB_PERMISSIVE, CB_N };
-static const char *cbname[] = { "no-callback", "strict-callback", "permissive-callback" };
+/* CB_FORGIVE_EXPIRED: the application accepts exactly ONE specific failure, certificate_expired (what a device without a
+ * reliable clock does, and what the repository's own sslTest callback does), and refuses every other alert */
+enum { CB_NONE = 0, CB_STRICT, CB_PERMISSIVE, CB_FORGIVE_EXPIRED, CB_N };
+static const char *cbname[] = { "no-callback", "strict-callback", "permissive-callback", "callback-forgives-only-expiry" };
 enum { X_CHAIN = 0, X_WRONGKEY, X_NOANCHOR, X_WRONGNAME, X_N };
 static const char *xname[] = { "chain", "wrong-private-key", "no-trust-anchor", "wrong-expected-name" };
 
@@ -44,6 +46,10 @@ static int32 cert_cb(ssl_t *ssl, psX509Cert_t *cert, int32 alert)
     (void) ssl; (void) cert;
     cb_calls++;
     cb_last_alert = alert;
+    if (cb_mode == CB_FORGIVE_EXPIRED)
+    {
+        return alert == SSL_ALERT_CERTIFICATE_EXPIRED ? 0 : alert;
+    }
     return cb_mode == CB_PERMISSIVE ? 0 : alert;
 }
 
@@ -273,7 +279,7 @@ static void run_case(void *ctx, mx_result_t *r)
     c_case_t *c = ctx;
     const m_cfg_t *M = &mcfgs[c->mi];
     c_out_t o;
-    int chain[2], anch[1], must_reject, pop_bad, verifier = c->vrole == 0 ? 0 : 1, vc;
+    int chain[2], anch[1], must_reject, pop_bad, verifier = c->vrole == 0 ? 0 : 1, vc, expiry_only = 0;
     ref_t lax;
     char kk[200];
     const char *sym = NULL;
@@ -291,6 +297,16 @@ static void run_case(void *ctx, mx_result_t *r)
     ref_lax(chain, 2, anch, c->x == X_NOANCHOR ? 0 : 1, &lax);
     pop_bad = c->x == X_WRONGKEY;
     must_reject = !lax.ok || c->x == X_WRONGNAME || c->x == X_NOANCHOR;
+    {
+        /* is being outside the validity period the ONLY thing wrong with this credential?  (the same chain with the
+           out-of-date certificates replaced by their in-date twins is valid, the name is right, an anchor is loaded) */
+        int kl = (c->kleaf == K_EXPIRED || c->kleaf == K_NOTYET) ? K_GOOD : c->kleaf, ki = (c->kint == K_EXPIRED || c->kint == K_NOTYET) ? K_GOOD : c->kint;
+        int ch2[2];
+        ref_t l2;
+        ch2[0] = u_leaf[M->slice][1][kl]; ch2[1] = u_ca[M->slice][1][ki];
+        ref_lax(ch2, 2, anch, 1, &l2);
+        expiry_only = c->x == X_CHAIN && (kl != c->kleaf || ki != c->kint) && l2.ok;
+    }
     run_handshake(c, &o);
     r->nontrivial = 1;
     r->transitions = 1;
@@ -307,6 +323,17 @@ static void run_case(void *ctx, mx_result_t *r)
     if (vc && pop_bad)
     {
         sym = "completed-without-proof-of-possession";
+    }
+    else if (vc && must_reject && c->cb == CB_FORGIVE_EXPIRED)
+    {
+        if (!expiry_only)
+        {
+            sym = "completed-with-a-failure-the-callback-did-not-forgive";
+        }
+        else if (o.cb_calls == 0 || o.cb_alert != SSL_ALERT_CERTIFICATE_EXPIRED)
+        {
+            sym = "completed-with-invalid-credential-callback-never-asked";
+        }
     }
     else if (vc && must_reject && c->cb != CB_PERMISSIVE)
     {
@@ -362,9 +389,10 @@ int main(int argc, char **argv)
     cfg.sanitizer_is_oracle = 1;
     cfg.level = "model_checking";
     cfg.engine = "exhaustive product of live handshakes between real endpoints; credentials from the generated C03 certificate universe; reference verdict from the C03 path validator";
-    cfg.rule = "case = (version x key-exchange class, verifying role, callback mode in {none, strict, permissive}, credential: each of the 31 certificate kinds at the leaf and at the intermediate position, "
-               "or a good chain with the WRONG private key, or no trust anchor on the verifier, or a wrong expected name); every cell of the product is a live handshake; non-trivial = the credential could be loaded and the handshake ran";
+    cfg.rule = "case = (version x key-exchange class, verifying role, callback mode in {none, strict, permissive, forgives only certificate_expired}, credential: each of the 31 certificate kinds at the leaf and at the intermediate position, "
+               "or a good chain with the WRONG private key, or no trust anchor on the verifier, or a wrong expected name; under the expiry-forgiving callback additionally every DOUBLE defect: an expired / not-yet-valid certificate combined with each other kind at the other position, with no anchor, with the wrong key, with the wrong name); every cell of the product is a live handshake; non-trivial = the credential could be loaded and the handshake ran";
     cfg.assumptions[0] = "must-reject = the reference validator (rules of C03) rejects the chain, or the expected name is wrong, or the verifier has no trust anchor; then completion of the verifier is a violation unless the permissive callback was asked with a non-zero alert";
+    cfg.assumptions[2] = "under the callback that forgives only certificate_expired the verifier may complete only if being outside the validity period is the ONLY defect of the credential (the chain with the out-of-date certificates replaced by in-date twins is valid) and the callback was asked with exactly that alert";
     cfg.assumptions[1] = "a peer that does not hold the certified private key must never be accepted, whatever the callback says";
     replay = mx_parse_args(argc, argv, &cfg);
     thorough = !strcmp(cfg.tier, "thorough");
@@ -407,6 +435,36 @@ int main(int argc, char **argv)
                     {
                         c.kleaf = K_GOOD; c.kint = k;
                         add_case(c);
+                    }
+                }
+                if (cb == CB_FORGIVE_EXPIRED)
+                {
+                    /* two things wrong at once: an out-of-date certificate AND another defect (the forgiven alert must
+                       not stand for the other failure) */
+                    int e, ek[2] = { K_EXPIRED, K_NOTYET };
+                    for (e = 0; e < 2; e++)
+                    {
+                        for (k = 0; k < K_N; k++)
+                        {
+                            if (k == K_GOOD || !kind_in_slice(mcfgs[mi].slice, k)) continue;
+                            if (kind_tab[k].where & F_CA)
+                            {
+                                c.x = X_CHAIN; c.kleaf = ek[e]; c.kint = k; add_case(c);
+                            }
+                            if ((kind_tab[k].where & F_LEAF) && (thorough || e == 0))
+                            {
+                                c.x = X_CHAIN; c.kleaf = k; c.kint = ek[e]; add_case(c);
+                            }
+                        }
+                        c.kleaf = ek[e]; c.kint = K_GOOD;
+                        c.x = X_NOANCHOR; add_case(c);
+                        c.x = X_WRONGKEY; add_case(c);
+                        if (v == 0)
+                        {
+                            c.x = X_WRONGNAME; add_case(c);
+                        }
+                        c.kleaf = K_GOOD; c.kint = ek[e];
+                        c.x = X_NOANCHOR; add_case(c);
                     }
                 }
                 c.kleaf = K_GOOD; c.kint = K_GOOD;
